@@ -25,6 +25,8 @@ Apply(e) ==
   CASE e.op = "set"     -> DoSet(st, e.k, e.v, e.ok = 1)
     [] e.op = "set_cut" -> DoCutSet(st, e.k, e.v, e.ok = 1)
     [] e.op = "set_kill" -> DoCutSet(st, e.k, e.v, FALSE)
+    \* a Set that gave up at its operation timeout while the write went on: the old value, the new one or absent
+    [] e.op = "set_slow" -> DoCutSet(st, e.k, e.v, e.ok = 1)
     [] e.op \in {"sched", "stress"} -> [st EXCEPT !.cand[e.k] = {Absent} \cup {v \in 0..8 : TRUE}, !.file[e.k] = UnkFile, !.orig[e.k] = UnkFile]
     [] e.op = "encstress" -> [st EXCEPT !.cand = [k \in DOMAIN st.cand |-> {e.v}],
                                         !.file = [k \in DOMAIN st.cand |-> UnkFile], !.orig = [k \in DOMAIN st.cand |-> UnkFile]]
